@@ -30,22 +30,6 @@ pub fn mbtiles_ok(fmt: u32, comp: u32) -> bool {
 	(fmt == 1 && comp == 1) || (fmt >= 2 && fmt <= 4 && comp == 0)
 }
 
-fn assign_ids(rng: &mut Rng, coords: &[Key], next: &mut u64) -> BTreeMap<Key, u64> {
-	let mut tiles = BTreeMap::new();
-	let mut used: Vec<u64> = vec![];
-	for k in coords {
-		let idv = if !used.is_empty() && rng.chance(1, 7) {
-			*rng.pick(&used)
-		} else {
-			*next += 1;
-			*next
-		};
-		used.push(idv);
-		tiles.insert(*k, idv);
-	}
-	tiles
-}
-
 /// levels to ask about: every level with tiles plus two levels without
 fn ask_levels(rng: &mut Rng, specs: &[SrcSpec]) -> BTreeMap<u8, Vec<(u32, u32)>> {
 	let mut m = levels_of(specs);
@@ -180,7 +164,8 @@ pub fn gen_sources(rng: &mut Rng, next: &mut u64, kmin: u64, kmax: u64, max_tile
 			let max = ((1u64 << z) - 1) as u32;
 			coords.push((z, (x + 1).min(max), y));
 		}
-		let mut spec = SrcSpec { fmt: 1, comp, kind, tiles: assign_ids(rng, &coords, next) };
+		let style = pick_style_vt(rng);
+		let mut spec = SrcSpec { fmt: 1, comp, kind, tiles: assign_ids_style(rng, &coords, next, style) };
 		if spec.kind == "mbtiles" {
 			// the mbtiles reader cannot open zoom gaps (separate defect, not C02's): keep one level
 			let z0 = spec.tiles.keys().next().unwrap().0;
@@ -294,7 +279,19 @@ pub fn run(args: &Args) {
 	let n_a = args.n(5, 30);
 	for wi in 0..n_a {
 		let dense = wi == 0;
-		let coords: Vec<Key> = if dense {
+		// world 1: "ocean" – every tile of levels 0..3 present, all byte-identical (< 1000 bytes)
+		let ocean = wi == 1;
+		let coords: Vec<Key> = if ocean {
+			let mut v = vec![];
+			for z in 0..=3u8 {
+				for y in 0..(1u32 << z) {
+					for x in 0..(1u32 << z) {
+						v.push((z, x, y));
+					}
+				}
+			}
+			v
+		} else if dense {
 			let mut v = vec![];
 			for z in 0..=3u8 {
 				let s = 1u32 << z;
@@ -313,8 +310,12 @@ pub fn run(args: &Args) {
 				gen_coords(&mut rng, 90, gaps)
 			}
 		};
-		let (fmt, comp) = if dense { (1, 1) } else { pick_fmt_comp(&mut rng) };
-		let tiles = assign_ids(&mut rng, &coords, &mut next);
+		let (fmt, comp) = if dense { (1, 1) } else if ocean { (1, 0) } else { pick_fmt_comp(&mut rng) };
+		// payload identity pattern: see `assign_ids_style`
+		let style = if dense { 0 } else if ocean { 1 } else if wi < 5 { [0, 1, 4, 2, 5][wi] } else { [0, 0, 0, 1, 2, 2, 3, 4, 4, 5][rng.below(10) as usize] };
+		out.count(&format!("A_payload_style_{style}"));
+		let tiles = assign_ids_style(&mut rng, &coords, &mut next, style);
+		count_dups(&mut out, &tiles);
 		let mut kinds = vec!["mem", "versatiles", "pmtiles", "tar", "dir"];
 		if mbtiles_ok(fmt, comp) {
 			kinds.push("mbtiles");
@@ -332,8 +333,18 @@ pub fn run(args: &Args) {
 			}
 			let levels = ask_levels(&mut rng, &specs);
 			for (z, present) in levels.iter() {
-				let boxes = gen_boxes(&mut rng, *z, present, if dense { 3 } else { 2 }, args.n(30, 60));
+				let boxes = gen_boxes(&mut rng, *z, present, if dense || ocean { 3 } else { 2 }, args.n(30, 60));
 				run_in_world(&rt, &mut out, &mut id, &w, "C02", "S", "L0", &boxes_arg(&boxes));
+				// the reader models on the real file's index / table
+				if kind == "versatiles" {
+					reader_line(&rt, &mut out, &mut id, &w, "C02v", "S", &boxes_arg(&boxes));
+				} else if kind == "mbtiles" {
+					reader_line(&rt, &mut out, &mut id, &w, "C02m", "S", &boxes_arg(&boxes));
+				}
+			}
+			if kind == "versatiles" || kind == "mbtiles" {
+				let cs = coords_arg(&mut rng, &specs, 4);
+				reader_line(&rt, &mut out, &mut id, &w, if kind == "versatiles" { "C02v" } else { "C02m" }, "G", &cs);
 			}
 			// converter wrappers: all four flag pairs
 			for flags in ["00", "10", "01", "11"] {
